@@ -85,6 +85,11 @@ class C17(Check):
             for kind in KINDS:
                 n = rng.choice([3, 4])
                 cases.append({'f': f, 'n': n, 'nv': 1, 'cols': fml.gen_trace(rng, 2, n), 'times': list(range(n)), 'shape': 'object-fields-nested', 'kind': kind, 'perm': 0.5})
+        # an earlier assertion reads a field of the object that a later assertion writes to (sb = xa.other ...; xa.value = ...; out = sb)
+        for f in [P, ('once', P), ('histt', 0, 1, P)]:
+            for kind in KINDS:
+                n = rng.choice([3, 4])
+                cases.append({'f': f, 'n': n, 'nv': 2, 'cols': fml.gen_trace(rng, 3, n), 'times': list(range(n)), 'shape': 'object-fields-other', 'kind': kind, 'perm': 0.5})
         # the result is written to one field of the object whose other field the formula reads (xa.other = ... xa.value ...)
         for f in [P, ('oncet', 0, 1, P), ('hist', P), ('alwt', 0, 1, P)]:
             for kind in KINDS:
@@ -99,6 +104,11 @@ class C17(Check):
         for full in ['out = exp(xa) > 1', 'out = pow(xa, 200) > 1', 'out = once(exp(xa) >= 2)', 'out = pow(2, xa) <= 5']:
             for kind in KINDS:
                 cases.append({'f': P, 'n': 3, 'nv': 1, 'cols': [[1000, 0, 800], [0, 0, 0]], 'times': [0, 1, 2], 'shape': 'big-values', 'kind': kind, 'perm': 0.5, 'text': full, 'full': 1})
+        # flat sums / chains of negations of 24-40 terms: the operators are built, reset and pastified by walks over the syntax tree
+        for full in ['out = ' + ' + '.join(['xa'] * 24) + ' >= 1', 'out = ' + ' + '.join(['xa'] * 40) + ' >= 1', 'out = ' + 'not ' * 30 + '(xa >= 1)',
+                     'out = once[0,1](' + ' + '.join(['xa'] * 30) + ' >= 1)']:
+            for kind in KINDS:
+                cases.append({'f': P, 'n': 3, 'nv': 1, 'cols': [[1, 0, 2], [0, 0, 0]], 'times': [0, 1, 2], 'shape': 'big-values', 'kind': kind, 'perm': 0.5, 'text': full, 'full': 1})
         # assertion heads that end with a dot (one Identifier token): declared under one name, looked up under another
         for full in ['a. = (xa >= 1)', 'xb. = once(xa >= 1)']:
             for kind in KINDS:
@@ -124,6 +134,8 @@ class C17(Check):
         names = fml.VARS + ['xe']
         vars_ = [names[i] for i in declared]
         supply = list(used)
+        if shape == 'object-fields-other':
+            supply = list(declared)         # the specification reads xb too
         if shape in ('unused-supplied', 'unused-missing'):
             vars_ = vars_ + ['xe']
             if shape == 'unused-supplied':
@@ -145,16 +157,24 @@ class C17(Check):
         if shape in ('huge-bound', 'big-values'):
             base['spec'] = c['text'] if c.get('full') else 'out = ' + c['text']
             base['pastify'] = kind.endswith('online') and ('always' in c['text'] or 'eventually' in c['text'])
-        if shape in ('object-fields', 'object-fields-same', 'object-fields-nested'):
+        ref = None
+        if shape in ('object-fields', 'object-fields-same', 'object-fields-nested', 'object-fields-other'):
             import re
-            head = {'object-fields': 'out.value', 'object-fields-same': 'xa.other', 'object-fields-nested': 'out.inner.v'}[shape]
+            ref = dict(base)          # the same formula over plain float variables: the values every call must return
+            head = {'object-fields': 'out.value', 'object-fields-same': 'xa.other', 'object-fields-nested': 'out.inner.v', 'object-fields-other': ''}[shape]
             fld = 'inner.v' if shape == 'object-fields-nested' else 'value'
-            base['spec'] = head + ' = ' + re.sub(r'\b(x[a-e])\b', r'\1.' + fld, fml.to_text(f))
-            base['objvars'] = vars_ + ([] if shape == 'object-fields-same' else ['out'])
+            body = re.sub(r'\b(x[a-e])\b', r'\1.' + fld, fml.to_text(f))
+            if shape == 'object-fields-other':
+                base['spec'] = 'sb = ' + re.sub(r'\b(x[a-e])\b', r'\1.other', fml.to_text(f)) + ';\nxa.value = xb.value >= 0;\nout = sb'
+                base['objvars'] = vars_
+            else:
+                base['spec'] = head + ' = ' + body
+                base['objvars'] = vars_ + ([] if shape == 'object-fields-same' else ['out'])
             if kind == 'dense-online':
                 # one sample per update(): the monitor is called several times
                 base['calls'] = [['update', [[nm(i), dense_samples(col(i), c['times'])[k:k + 1]] for i in order]] for k in range(n)]
-                return [base]
+                ref['calls'] = base['calls']
+                return [base, ref]
         if kind == 'discrete-offline':
             data = {'time': c['times']}
             for i in order:
@@ -166,6 +186,9 @@ class C17(Check):
             base['calls'] = [['evaluate', [[nm(i), dense_samples(col(i), c['times'])] for i in order]]]
         else:
             base['calls'] = [['update', [[nm(i), dense_samples(col(i), c['times'])] for i in order]]]
+        if ref is not None:
+            ref['calls'] = base['calls']
+            return [base, ref]
         return [base]
 
     def judge(self, c, mlines, ires):
@@ -181,6 +204,11 @@ class C17(Check):
         stat = [i['setup']] + i['calls']
         det = {'monitor': c['kind'], 'shape': c['shape'], 'pastified': past, 'supported_by_model': sup}
         first_bad = next((s for s in stat if s['status'] != 'ok'), None)
+        if c['shape'].startswith('object-fields') and len(ires) > 1 and first_bad is None:
+            want = [r.get('value') for r in ires[1]['calls']]
+            got = [r.get('value') for r in i['calls']]
+            if ires[1]['setup']['status'] == 'ok' and all(r['status'] == 'ok' for r in ires[1]['calls']) and want != got:
+                return 'violation', dict(det, expected={'the same formula over float variables': want}, observed={'over fields of objects': got})
         if c['shape'] == 'big-values':
             if first_bad is not None:
                 return 'violation', dict(det, spec=c['text'], expected='every call returns normally (the data are finite)', observed=first_bad)
